@@ -23,11 +23,11 @@ fn type_name(kt: &str) -> &'static str {
 }
 
 /// create a map of type `kt` with a few entries, close it, return its image and model
-fn build(dir: &Path, kt: &str, rng: &mut Rng) -> Result<(Image, Model, Vec<Vec<u8>>), String> {
+fn build(dir: &Path, kt: &str, rng: &mut Rng, entries: usize) -> Result<(Image, Model, Vec<Vec<u8>>), String> {
     let _ = std::fs::remove_dir_all(dir);
     let db = abyssiniandb::open_file(dir).map_err(|e| e.to_string())?;
     let mut m = open_dyn(&db, kt, "m", &Cfg::small(8)).map_err(|e| e.to_string())?;
-    let keys = make_keys(kt, rng, 6);
+    let keys = make_keys(kt, rng, entries);
     let mut model = Model::new();
     for (i, k) in keys.iter().enumerate() {
         let v = crate::util::gen_bytes(5 + i * 9, i as u32, 0);
@@ -117,8 +117,10 @@ pub fn run(a: &Args) -> Ctx {
     // every value of every signature byte in both tiers (61k opens are cheap): the mutation matrix is exhaustive
     let all_values = true;
     let mut job = 0usize;
-    for &ka in KT_NAMES.iter() {
-        let (img, model, keys) = match build(&dir, ka, &mut rng) {
+    // every type twice: a populated map, and a map that was created but never held a record (header-only files)
+    for (&ka, entries) in KT_NAMES.iter().flat_map(|k| [(k, 6usize), (k, 0usize)]) {
+        ctx.count(if entries == 0 { "maps.never_populated" } else { "maps.populated" }, 1);
+        let (img, model, keys) = match build(&dir, ka, &mut rng, entries) {
             Ok(x) => x,
             Err(e) => {
                 ctx.inconclusive.push(format!("cannot build a {ka} map: {e}"));
@@ -220,7 +222,7 @@ pub fn run(a: &Args) -> Ctx {
                     let cell = Cell { desc: format!("{} map with byte {pos} of the .{fname} signature changed from {orig:#04x} to {nv:#04x}, opened as {}", type_name(ka), type_name(ka)), signature: format!("mutated_signature file={fname} byte={pos} type={} outcome=accepted", type_name(ka)) };
                     check_cell(&dir, &im, ka, cell, &mut ctx);
                     ctx.count("cells.byte_mutations", 1);
-                    ctx.digests.insert(((f as u64) << 40) | ((pos as u64) << 16) | ((nv as u64) << 8) | KT_NAMES.iter().position(|x| *x == ka).unwrap() as u64);
+                    ctx.digests.insert(((entries as u64) << 48) | ((f as u64) << 40) | ((pos as u64) << 16) | ((nv as u64) << 8) | KT_NAMES.iter().position(|x| *x == ka).unwrap() as u64);
                 }
             }
         }
